@@ -1,3 +1,4 @@
+\* NEGATIVE CONTROL (old engine, flag-only Pause): TLC must refute the invariant
 SPECIFICATION Spec
 CONSTANTS
   NEvents = 2
@@ -5,6 +6,7 @@ CONSTANTS
   MaxReq = 2
   Endpoints = {"pause", "continue", "state", "now", "tick", "component", "field", "buffers", "progress"}
   PauseWaits = FALSE
+  HoldCtl = TRUE
   Atomic = FALSE
   Record = FALSE
 INVARIANT NoConcurrentAccessUnderPause
